@@ -974,10 +974,18 @@ impl<'a> TreeState<'a> {
                 let per = chunk.len().div_ceil(parts);
                 let names: [(&str, &str); 3] = [("a", "02"), ("b", "01"), ("b", "03")];
                 let same_name = self.rng.chance(1, 3);
+                let lead = self.rng.chance(1, 2);
                 let mut made: Vec<(usize, Vec<Entry>)> = Vec::new();
                 for (pi, c) in chunk.chunks(per).enumerate() {
                     let (d, n) = names[pi.min(2)];
-                    let p = if same_name {
+                    let p = if lead {
+                        // the wildcard leads the directory name: `*-yK/` and `?-yK/`
+                        if same_name {
+                            format!("{}/{}-y{}/part{}.ledger", abs_dir, ["a", "b", "c"][pi.min(2)], k, k)
+                        } else {
+                            format!("{}/{}-y{}/part{}-{}.ledger", abs_dir, d, k, k, n)
+                        }
+                    } else if same_name {
                         format!("{}/y{}{}/part{}.ledger", abs_dir, k, ["a", "b", "c"][pi.min(2)], k)
                     } else {
                         format!("{}/y{}{}/part{}-{}.ledger", abs_dir, k, d, k, n)
@@ -987,15 +995,23 @@ impl<'a> TreeState<'a> {
                     self.files.push(f);
                     made.push((self.files.len() - 1, c.to_vec()));
                 }
-                let pat = if same_name {
-                    format!("{}y{}?/part{}.ledger", rel_dir, k, k)
-                } else {
-                    format!("{}y{}*/part{}-*.ledger", rel_dir, k, k)
+                let pat = match (lead, same_name) {
+                    (true, true) => format!("{}?-y{}/part{}.ledger", rel_dir, k, k),
+                    (true, false) => format!("{}*-y{}/part{}-*.ledger", rel_dir, k, k),
+                    (false, true) => format!("{}y{}?/part{}.ledger", rel_dir, k, k),
+                    (false, false) => format!("{}y{}*/part{}-*.ledger", rel_dir, k, k),
                 };
                 self.files[idx].push(Entry::Include(pat));
                 if self.cfg.dotfiles && self.rng.chance(1, 2) {
-                    // a dot directory next to the matched ones
-                    self.extra.insert(format!("{}/.y{}a/part{}-00.ledger", abs_dir, k, k), decoy_text(k));
+                    // a dot directory next to the matched ones, holding a file the last component matches:
+                    // only the rule about leading dots keeps it out when the wildcard leads the name
+                    let name = match (lead, same_name) {
+                        (true, true) => format!("{}/.-y{}/part{}.ledger", abs_dir, k, k),
+                        (true, false) => format!("{}/.a-y{}/part{}-00.ledger", abs_dir, k, k),
+                        (false, true) => format!("{}/.y{}a/part{}.ledger", abs_dir, k, k),
+                        (false, false) => format!("{}/.y{}a/part{}-00.ledger", abs_dir, k, k),
+                    };
+                    self.extra.insert(name, decoy_text(k));
                 }
                 for (fi, c) in made {
                     self.fill(fi, c, depth + 1);
